@@ -121,6 +121,8 @@ fn main() {
 		("u16", "C02", "VERIF_BIN_U16_C02"),
 		("u16", "C04", "VERIF_BIN_U16_C04"),
 		("u16", "C14", "VERIF_BIN_U16_C14"),
+		("u16", "C05", "VERIF_BIN_U16_C05"),
+		("u16", "C06", "VERIF_BIN_U16_C06"),
 		("f32", "C02", "VERIF_BIN_F32_C02"),
 		("f32", "C03", "VERIF_BIN_F32_C03"),
 		("f32", "C04", "VERIF_BIN_F32_C04"),
@@ -134,6 +136,8 @@ fn main() {
 	let mut sub_states = 0u64;
 	let mut sub_trans = 0u64;
 	let mut sub_runs = vec![];
+	// the sub-runs are independent processes: run them side by side
+	let mut jobs = vec![];
 	for (variant, prop, var) in subs {
 		let Some(bin) = env(var) else {
 			h.run.machinery_error(format!("{var} not set"));
@@ -142,7 +146,17 @@ fn main() {
 		let dir = scratch_root.join(format!("{variant}-{prop}"));
 		let _ = std::fs::create_dir_all(&dir);
 		let _ = std::fs::copy(mccore::evidence::verif_dir().join("known_findings.json"), dir.join("known_findings.json"));
-		let out = std::process::Command::new("timeout").arg("-k").arg("5").arg("1500").arg(&bin).arg("quick").env("VERIF_DIR", &dir).env("VERIF_WIDE", if thorough { "2" } else { "1" }).output();
+		jobs.push((variant, prop, bin, dir));
+	}
+	let outs: Vec<_> = std::thread::scope(|sc| {
+		let hs: Vec<_> = jobs
+			.iter()
+			.map(|(_, _, bin, dir)| sc.spawn(move || std::process::Command::new("timeout").arg("-k").arg("5").arg("1500").arg(bin).arg("quick").env("VERIF_DIR", dir).env("VERIF_WIDE", if thorough { "2" } else { "1" }).env("RAYON_NUM_THREADS", "6").output()))
+			.collect();
+		hs.into_iter().map(|h| h.join().unwrap()).collect()
+	});
+	for ((variant, prop, bin, _), out) in jobs.iter().zip(outs) {
+		let (variant, prop) = (*variant, *prop);
 		match out {
 			Err(e) => h.run.machinery_error(format!("cannot run {bin}: {e}")),
 			Ok(o) => {
